@@ -21,4 +21,5 @@ import (
 	_ "verif/harness/checks/c17"
 	_ "verif/harness/checks/c18"
 	_ "verif/harness/checks/c19"
+	_ "verif/harness/checks/c20"
 )
